@@ -32,7 +32,7 @@ ASSUMPTIONS = [
 ]
 MANIFEST = {
     "level": "exploration",
-    "technique": "exhaustive enumeration of the finite option matrix (sharded) with a behavioural differential oracle against an independently computed effective configuration; Hypothesis only orders/samples the environment-level part",
+    "technique": "exhaustive enumeration of the finite option matrix and of short live-environment histories (sharded) with a behavioural differential oracle against an independently computed effective configuration / repository-list model",
     "text": "Every point of the backend-level matrix and a large enumerated part of the cluster/environment-level matrix is constructed from each source and probed behaviourally (where files appear, whether re-reads touch the store, whether writes/forgets are refused, which repository wins), before and after a to_dict() round trip.",
     "note": "Trusts the independent model of effective options in checks/c18.py and the audit hook.",
 }
